@@ -291,3 +291,36 @@ Print Assumptions C11_exec_compile_den_braces.
 Theorem C11_untrimmed_braces : forall a, untrimmed a = true -> trims_only_braces a = true.
 Proof. exact PatTrim.untrimmed_braces. Qed.
 Print Assumptions C11_untrimmed_braces.
+
+(* ---------------------------------------------------------------------------------------------------------------
+   F40 (repaired, repo 91e76e1): braces are balanced inside every alternative.  At '|' and ')' the parser now compares
+   the brace depth with the depth at the '(' of the group and reports StackError when they differ; before, it reset the
+   depth silently and accepted e.g. "(%{|?)01", whose Push resumes behind the group ([parse_orig] = the parser as it stood). *)
+From PV.Spec Require WorkSpec.
+From PV.Proofs Require PatNestProofs.
+Theorem C11_F40_parse_orig_unbalanced_refuted :
+  parse_orig [40; 37; 123; 124; 63; 41; 48; 49] = Ok (inr [Save 0; Case 3; Push 1; Jump1; Break 2; Nop; Skip 1; Byte 1]) /\
+  WorkSpec.cases_nested [Save 0; Case 3; Push 1; Jump1; Break 2; Nop; Skip 1; Byte 1] = false /\
+  parse [40; 37; 123; 124; 63; 41; 48; 49] = Ok (inl (StackError, 3%nat)) /\
+  parse [40; 37; 123; 63; 41] = Ok (inl (StackError, 4%nat)) /\
+  parse [37; 123; 40; 48; 49; 125; 124; 63; 41] = Ok (inl (StackError, 6%nat)).
+Proof. exact PatNestProofs.parse_orig_unbalanced_refuted. Qed.
+Print Assumptions C11_F40_parse_orig_unbalanced_refuted.
+
+(* Every pattern the parser accepts - ANY byte string, not only the spellings of well-formed ASTs - passes the static
+   nesting check of Spec/WorkSpec.v: an invocation of the interpreter started right behind a Case atom can only fail
+   inside the block of that Case (C03_exec_nesting_check_sound), so the work bound with one factor per skip range and
+   none per Case (C03_exec_work_nested) applies to every accepted pattern string. *)
+Theorem C11_parse_output_nested : forall s p, parse s = Ok (inr p) -> WorkSpec.cases_nested p = true.
+Proof. exact PatNestProofs.parse_nested. Qed.
+Print Assumptions C11_parse_output_nested.
+Theorem C11_compile_nested : forall a, wf a -> WorkSpec.cases_nested (compile a) = true.
+Proof. exact PatNestProofs.compile_nested. Qed.
+Print Assumptions C11_compile_nested.
+(* not vacuous: "(%{01}|?)02"; a '}' inside a group that closes a brace opened before it ("%{(01}%{|02)}03") and a '{'
+   right behind a ')' ("(01|%){02}03") are accepted as before and pass the check *)
+Example C11_parse_output_nested_nonvacuous :
+  parse [40; 37; 123; 48; 49; 125; 124; 63; 41; 48; 50] = Ok (inr [Save 0; Case 5; Push 1; Jump1; Byte 1; Pop; Break 2; Nop; Skip 1; Byte 2]) /\
+  (exists p, parse [37; 123; 40; 48; 49; 125; 37; 123; 124; 48; 50; 41; 125; 48; 51] = Ok (inr p) /\ WorkSpec.cases_nested p = true) /\
+  (exists p, parse [40; 48; 49; 124; 37; 41; 123; 48; 50; 125; 48; 51] = Ok (inr p) /\ WorkSpec.cases_nested p = true).
+Proof. exact PatNestProofs.parse_nested_nonvacuous. Qed.
